@@ -129,59 +129,96 @@ func runServe(c *core.Ctx) {
 		return
 	}
 	digestHdr := constValue(c, "types", "HeaderDockerDigest")
+	// one response: the ServeContent call, seen from the function that opened the reader.  When the call sits in a
+	// helper that receives reader, digest and media type as parameters, every caller of the helper is one response
+	// and the helper's parameters stand for the caller's arguments (subst).
+	check := func(key string, fn *ssa.Function, sc *ssa.Call, subst func(ssa.Value) ssa.Value, domSite ssa.Instruction) {
+		bg, idx := an.CallOf(an.Origin(subst(sc.Call.Args[4])))
+		if bg == nil || idx != 0 || !r.IsAPI(bg, "Repo", "BlobGet") {
+			c.Fail(key, sc.Pos(), "the served content is not the reader returned by BlobGet")
+			return
+		}
+		_, bargs := an.CallArgs(bg)
+		dg := bargs[0]
+		var problems []string
+		foundDigest, foundCT := false, false
+		for _, h := range headerSets(fn) {
+			switch {
+			case strings.EqualFold(h.key, digestHdr):
+				foundDigest = true
+				sc2, _ := an.CallOf(an.Strip(h.val))
+				if sc2 == nil || !an.IsMethod(sc2, digestPkg, "Digest", "String") || !sameSource(subst(sc2.Call.Args[0]), dg) {
+					problems = append(problems, fmt.Sprintf("the %s header at %s is not the String() of the digest passed to BlobGet at %s: the response would announce a digest its body does not hash to", digestHdr, c.P.Pos(h.call.Pos()), c.P.Pos(bg.Pos())))
+				}
+				if !h.call.Block().Dominates(sc.Block()) {
+					problems = append(problems, "the digest header is not set on every path to ServeContent")
+				}
+			case strings.EqualFold(h.key, "Content-Type"):
+				if !h.call.Block().Dominates(sc.Block()) {
+					continue // headers of other (error) responses
+				}
+				foundCT = true
+				val := subst(h.val)
+				if _, isConst := an.ConstString(val); isConst {
+					continue
+				}
+				rd, _ := accessPath(an.Strip(dg))
+				rv, pv := accessPath(an.Strip(val))
+				if rd != rv || !pathEq(pv, "MediaType") {
+					problems = append(problems, fmt.Sprintf("the Content-Type at %s is not the media type of the descriptor whose digest is served", c.P.Pos(h.call.Pos())))
+				}
+			}
+		}
+		_ = domSite
+		if !foundDigest {
+			problems = append(problems, "no "+digestHdr+" header is set")
+		}
+		if !foundCT {
+			problems = append(problems, "no Content-Type header is set on the path to ServeContent")
+		}
+		if len(problems) > 0 {
+			c.Fail(key, sc.Pos(), "%s", strings.Join(problems, "; "))
+		} else {
+			c.Pass(key, sc.Pos(), "digest header, BlobGet argument and media type come from the same descriptor / digest")
+		}
+	}
 	for _, fn := range serverFuncs(c) {
 		an.Calls(fn, func(call ssa.CallInstruction) {
 			sc, ok := call.(*ssa.Call)
 			if !ok || !an.IsFunc(call, "net/http", "ServeContent") {
 				return
 			}
-			key := "serve:" + kn(c.P.FuncName(fn))
-			bg, idx := an.CallOf(an.Origin(sc.Call.Args[4]))
-			if bg == nil || idx != 0 || !r.IsAPI(bg, "Repo", "BlobGet") {
-				c.Fail(key, sc.Pos(), "the served content is not the reader returned by BlobGet")
-				return
-			}
-			_, bargs := an.CallArgs(bg)
-			dg := bargs[0]
-			var problems []string
-			foundDigest, foundCT := false, false
-			for _, h := range headerSets(fn) {
-				switch {
-				case strings.EqualFold(h.key, digestHdr):
-					foundDigest = true
-					sc2, _ := an.CallOf(an.Strip(h.val))
-					if sc2 == nil || !an.IsMethod(sc2, digestPkg, "Digest", "String") || !sameSource(sc2.Call.Args[0], dg) {
-						problems = append(problems, fmt.Sprintf("the %s header at %s is not the String() of the digest passed to BlobGet at %s: the response would announce a digest its body does not hash to", digestHdr, c.P.Pos(h.call.Pos()), c.P.Pos(bg.Pos())))
+			if p, isParam := an.Origin(sc.Call.Args[4]).(*ssa.Parameter); isParam && p.Parent() == fn && fn.Parent() == nil {
+				sites := c.P.Callers(fn)
+				if len(sites) == 0 {
+					c.Fail("serve:"+kn(c.P.FuncName(fn)), sc.Pos(), "the serving helper has no callers: the served content is not the reader returned by BlobGet")
+					return
+				}
+				for i, site := range sites {
+					site := site
+					key := fmt.Sprintf("serve:%s|via %s", kn(c.P.FuncName(site.Parent())), kn(c.P.FuncName(fn)))
+					if i > 0 && site.Parent() == sites[i-1].Parent() {
+						key += fmt.Sprintf("#%d", i+1)
 					}
-					if !h.call.Block().Dominates(sc.Block()) {
-						problems = append(problems, "the digest header is not set on every path to ServeContent")
-					}
-				case strings.EqualFold(h.key, "Content-Type"):
-					if !h.call.Block().Dominates(sc.Block()) {
-						continue // headers of other (error) responses
-					}
-					foundCT = true
-					if _, isConst := an.ConstString(h.val); isConst {
+					if site.Common().StaticCallee() != fn {
+						c.Fail(key, site.Pos(), "the serving helper is called through a function value")
 						continue
 					}
-					rd, _ := accessPath(an.Strip(dg))
-					rv, pv := accessPath(an.Strip(h.val))
-					if rd != rv || !pathEq(pv, "MediaType") {
-						problems = append(problems, fmt.Sprintf("the Content-Type at %s is not the media type of the descriptor whose digest is served", c.P.Pos(h.call.Pos())))
+					subst := func(v ssa.Value) ssa.Value {
+						if q, ok := an.Origin(v).(*ssa.Parameter); ok && q.Parent() == fn {
+							for k, x := range fn.Params {
+								if x == q && k < len(site.Common().Args) {
+									return site.Common().Args[k]
+								}
+							}
+						}
+						return v
 					}
+					check(key, fn, sc, subst, site)
 				}
+				return
 			}
-			if !foundDigest {
-				problems = append(problems, "no "+digestHdr+" header is set")
-			}
-			if !foundCT {
-				problems = append(problems, "no Content-Type header is set on the path to ServeContent")
-			}
-			if len(problems) > 0 {
-				c.Fail(key, sc.Pos(), "%s", strings.Join(problems, "; "))
-			} else {
-				c.Pass(key, sc.Pos(), "digest header, BlobGet argument and media type come from the same descriptor / digest")
-			}
+			check("serve:"+kn(c.P.FuncName(fn)), fn, sc, func(v ssa.Value) ssa.Value { return v }, sc)
 		})
 	}
 }
@@ -818,14 +855,39 @@ func runErrPair(c *core.Ctx) {
 					s.codes = append(s.codes, codesOf(e)...)
 				}
 			} else {
-				// a list produced by a helper of the server package: the codes its constructors build
-				if hc, _ := an.CallOf(an.Origin(cc.Call.Args[1])); hc != nil {
-					if callee := localCallee(c, hc); callee != nil {
-						an.Calls(callee, func(c2 ssa.CallInstruction) {
-							if v, ok := c2.(*ssa.Call); ok {
-								s.codes = append(s.codes, codesOf(v)...)
+				// a list produced by a helper of the server package (or chosen among several such lists): the codes the
+				// constructors called by that helper — and by the functions of the package it obtains lists from — build
+				var fromHelper func(h *ssa.Function, depth int, seen map[*ssa.Function]bool)
+				fromHelper = func(h *ssa.Function, depth int, seen map[*ssa.Function]bool) {
+					if h == nil || seen[h] || depth > 2 {
+						return
+					}
+					seen[h] = true
+					an.Calls(h, func(c2 ssa.CallInstruction) {
+						v, ok := c2.(*ssa.Call)
+						if !ok {
+							return
+						}
+						s.codes = append(s.codes, codesOf(v)...)
+						if inner := localCallee(c, c2); inner != nil && inner.Parent() == nil {
+							res := inner.Signature.Results()
+							for i := 0; i < res.Len(); i++ {
+								if types.Identical(res.At(i).Type(), cc.Call.Args[1].Type()) {
+									fromHelper(inner, depth+1, seen)
+								}
 							}
-						})
+						}
+					})
+				}
+				for _, o := range an.Origins(cc.Call.Args[1]) {
+					if elems, ok := variadicElems(o); ok {
+						for _, e := range elems {
+							s.codes = append(s.codes, codesOf(e)...)
+						}
+						continue
+					}
+					if hc, _ := an.CallOf(o); hc != nil {
+						fromHelper(localCallee(c, hc), 0, map[*ssa.Function]bool{})
 					}
 				}
 			}
